@@ -6,7 +6,7 @@
     text_roundtrip attr_roundtrip text_no_markup attr_no_breakout
     text_roundtrip_xml_partial attr_roundtrip_xml_partial
     reread_nostrip reread_strip strip_commutes_escape site_yields_plain markup_add_escapes
-    structure_preserved_partial render_stream_ok hole_is_data emit_both_implementations
+    structure_preserved_partial render_stream_ok hole_is_data emit_both_implementations markup_format_site
     attrs_site_partial attrs_site_none_removes attrs_site_others_untouched attrs_blank_dropped
     script_text_is_raw div_text_is_escaped attr_name_not_escaped pre_keeps_whitespace div_normalises_whitespace
     text_cr_not_recovered_xml attr_lf_not_recovered_xml control_char_not_wellformed_xml
@@ -14,6 +14,7 @@
 import Genshi.Lemmas.Subst
 import Genshi.Lemmas.SubstTmpl
 import Genshi.Lemmas.SubstAttrs
+import Genshi.Lemmas.SubstFmt
 namespace Genshi.Props.C01
 open Genshi.Escape Genshi.Str Genshi.Subst
 
@@ -490,6 +491,22 @@ theorem hole_is_data (m : Method) (st : RS) (v : List Char) :
     rw [escapePy_eq_spec] at hc
     exact (escapeSpec_chars true v c hc).2.2 rfl
 
+/-- **`Markup(fmt) % operands` with tags in the author's markup.**  `fmt` is written from
+    pieces — literal text, start tags whose attribute values are literals or holes, end tags,
+    text holes (`fmtString`).  For every operand list: the operator's result (`mMod`, the C18
+    model of both implementations) is the author's markup with each operand escaped in its hole,
+    and re-reading it — with the reader of any of the three methods — gives the author's
+    elements and attributes with every operand verbatim as character data / attribute value
+    (`fillEsc` holds the operands; `coalesce` decodes the `escape()`d text holes).
+    Hypotheses: the names contain no `%` (they are written into a format string), are names the
+    reader accepts, and (html) a void element is not given content. -/
+theorem markup_format_site (m : Method) (pieces : List FPiece) (args : List (List Char)) (toks : List Tok)
+    (hn : piecesNoPct pieces) (hf : fillEsc pieces args = some toks)
+    (hok : ∀ t ∈ toks, tokOkB m t = true) (hopen : ∀ t a, Tok.open t a ∈ toks → openOk m t = true) :
+    ∃ s, mMod escapePy (fmtString pieces) (.tup (args.map Opnd.plain)) = .ok s ∧
+      readDoc m s = some (coalesce (toks.flatMap tokEvents)) :=
+  readDoc_mMod_pieces m pieces args toks hn hf hok hopen
+
 /-- Both `Markup` implementations write the same bytes: the C scan of `_speedups.c` on the
     UTF-8 of a value is the UTF-8 of what the model's emitters (the Python chain) produce
     (C18: `escapeC_eq_escapePy`). -/
@@ -552,6 +569,19 @@ example : readAttr (emitAttr ['"', '>', '<', 'b', ' ', 'o', 'n', 'x', '=', '"'] 
     = ['"', '>', '<', 'b', ' ', 'o', 'n', 'x', '=', '"'] := by decide
 example : emitAttr ['"', '&'] = ['&', '#', '3', '4', ';', '&', 'a', 'm', 'p', ';'] := by decide
 example : readTextXml (emitText .xml ['a', '&', 'l', 't', ';', 'é']) = some ['a', '&', 'l', 't', ';', 'é'] := by decide
+
+/-- `Markup('<a href="%s" class="x&#34;y">100%% %s</a>') % (u, v)` -/
+def examplePieces : List FPiece :=
+  [.open ['a'] [(['h', 'r', 'e', 'f'], .hole), (['c', 'l', 'a', 's', 's'], .lit ['x', '"', 'y'])],
+   .text ['1', '0', '0', '%', ' '], .hole, .close ['a']]
+
+example : fmtString examplePieces =
+    ['<', 'a', ' ', 'h', 'r', 'e', 'f', '=', '"', '%', 's', '"', ' ', 'c', 'l', 'a', 's', 's', '=', '"', 'x', '&', '#', '3', '4',
+     ';', 'y', '"', '>', '1', '0', '0', '%', '%', ' ', '%', 's', '<', '/', 'a', '>'] := by decide
+
+example : (fillEsc examplePieces [['"', '>', '<'], ['<', '/', 'a', '>']]).map (fun toks => coalesce (toks.flatMap tokEvents)) =
+    some [.start ['a'] [(['h', 'r', 'e', 'f'], ['"', '>', '<']), (['c', 'l', 'a', 's', 's'], ['x', '"', 'y'])],
+          .text ['1', '0', '0', '%', ' ', '<', '/', 'a', '>'] false, .end_ ['a']] := by decide
 
 /-- a template with an interpolated attribute, `py:attrs`, a loop, a `Markup` operator and a
     builder call: inside the hypotheses of `structure_preserved` for all methods -/
